@@ -22,6 +22,8 @@ def tasks(tier, seed):
 
 
 def extra(led, tier, seed):
+    from contracts import gemini_large
+    led.extend(gemini_large.obligations(seed, tier))
     led.assume("A1", "A2", "A3", "A4", "A8",
                "A5: ot.emd2 contract: cost = <u,a> + <v,b> and the dual potentials are the derivative of the cost "
                "(envelope theorem on a non-degenerate optimal basis)",
